@@ -64,6 +64,11 @@ checks.update({
    technique="explicit-state search TO A FIXPOINT over canonical post-compaction layouts of the real KVStore (bursts of operations followed by compaction until done); closure of the state space proves the bounds for workloads of any length over the alphabet",
    text="States are post-compaction store layouts in canonical form; a transition is any burst of 1..3 (quick) / 1..4 (thorough) operations from {Put or PutRaw(k,size), Delete(k)} over 2 (quick) / 3 (thorough) keys and two sizes, followed by Compaction() until done; primary (Put) and backup (PutRaw) mode, idle-table timeout 0 and 15 minutes. After every burst: inuse+garbage=offset per table, sum of inuse = live bytes, Length = live keys. On every post-compaction state: no live table at or above the 40% garbage threshold, tables <= live keys + 2, recycled tables released when the timeout is 0. The search runs until no burst produces a new state (fixpoint), which it does on the current tree.",
    note="soundness of the closure argument rests on kvmc.Canon (documented there): layout, numbering gaps and per-key version order are kept, absolute coefficients/timestamps/last-access dropped; ttl-expiry churn is represented by Delete (the store never interprets ttl)"),
+
+ "C16": dict(cat="exploration", engine="inputmc", ref="6 C16",
+   technique="exhaustive enumeration of argument vectors over a token alphabet for every registered command through the real command multiplexer, plus all short byte strings through the RESP reader; crash-isolated workers with a wall-clock watchdog that re-runs a hung batch request by request",
+   text="For each of the 32 registered commands (the list is read from the server at run time): every argument vector of length 0..3 (quick) / 0..4 (thorough) over a 24-token alphabet, the vectors of length <= 2 behind 16 plausible positional prefixes (reaching 'valid request + option without its value / unknown option'), upper-case command names through a second member, and every byte string of length <= 5/6 over {* $ 1 2 - CR LF a SP} through redcon's reader: no panic, a reply is written, PING on the same connection and a Put/Get round trip on another connection succeed afterwards; a request that keeps the CPU past the watchdog is named.",
+   note="handlers are called through the real multiplexer, not through sockets; a handler that only waits in virtual time is waiting, not wedged; random byte streams at socket level are sampling and outside this family"),
 })
 not_applicable = {}
 all_ids = ["C%02d" % i for i in range(1, 21)]
@@ -83,6 +88,7 @@ m = {
  "engines": [
    {"name": "kvmc", "path": "harness/kvmc", "serves_properties": ["C11", "C12", "C20"], "kind_free_text": "explicit-state BFS over the real storage engine"},
    {"name": "schedmc", "path": "harness/schedmc", "serves_properties": ["C01", "C07", "C08"], "kind_free_text": "stateless schedule exploration (preemption bounded DFS) of real members under a cooperative scheduler"},
+   {"name": "inputmc", "path": "harness/checks/c16.go", "serves_properties": ["C16"], "kind_free_text": "exhaustive enumeration of request argument vectors / byte frames through the real handlers, in crash-isolated workers with a watchdog"},
    {"name": "faultgrid", "path": "harness/checks", "serves_properties": ["C05", "C06", "C15"], "kind_free_text": "exhaustive enumeration of finite configuration / fault / layout grids, one fresh real cluster per case"},
    {"name": "clustermc", "path": "harness/clustermc", "serves_properties": ["C04", "C09", "C10", "C13", "C19"], "kind_free_text": "explicit-state BFS over event sequences on a simulated cluster of real members (path replay)"},
  ],
